@@ -345,4 +345,13 @@ def _prev_idx(b, v, idx):
     c = mir.subterms(v, lambda x: x[0] == 'idx' and util.const_val(x[2]) == idx and isinstance(strip(x[1]), tuple) and strip(x[1])[0] == 'var' and '&' in str(x))
     if not c:
         c = mir.subterms(v, lambda x: x[0] == 'idx' and util.const_val(x[2]) == idx and 'previous' in show(x, maxdepth=4))
+    if not c:
+        # the reference vector chosen by a helper of the solver: fn(&self, &Joints) -> &Joints applied to the caller's previous
+        def by_helper(x):
+            if not (x[0] == 'idx' and util.const_val(x[2]) == idx):
+                return False
+            base = strip(x[1])
+            return isinstance(base, tuple) and base[0] == 'call' and base[1] in b.prog.bodies and len(base) == 4 and util.is_param(base[2], 1) and \
+                util.is_param(base[3], 3) and '[f64; 6]' in b.prog.bodies[base[1]].local_ty(0)
+        c = mir.subterms(v, by_helper)
     return c[0] if c else None
